@@ -100,7 +100,8 @@ def corpus_cases():
     # removing P there (root_removal=True; only meaningful for an altroot, whose root is not the filesystem's root)
     cases = hist.matrix_cases("c07", ["alt_mem", "alt_phys", "alt_alt", "alt_ovl"], root_removal=True) + \
         hist.dotted_name_cases("c07", ["alt_mem", "alt_phys", "alt_alt", "alt_ovl", "alt_root"]) + \
-        hist.neighbour_name_cases("c07", ["alt_mem", "alt_phys", "alt_alt", "alt_root"])
+        hist.neighbour_name_cases("c07", ["alt_mem", "alt_phys", "alt_alt", "alt_root"]) + \
+        hist.open_handle_cases("c07", ["alt_mem", "alt_phys", "alt_alt", "alt_root"])
     for c in cases:
         c.first_watch = {}
     return cases
